@@ -27,7 +27,16 @@ def frame (l : Loc) (commit : Bool) : Bool := !l.emb && l.tx.isNone && !commit &
     2 = look's gate taken / released but not reported, 3 = look without its gate (p0, p5), 4 = unwatchAll as a body -/
 def bodyOk (l : Loc) (commit : Bool) (kind : Nat) : Bool :=
   match l.ctx with
-  | .embedded => l.emb && gateIs l none false && !l.inLook && !commit && (kind == 0 || kind == 1)
+  | .embedded => l.emb && !commit &&
+      (if l.inLook then
+        (if l.neg then gateIs l none false && (kind == 0 || kind == 1 || kind == 3)
+         else match kind with
+          | 0 => gateIs l none false
+          | 1 => gateIs l (some .s) true
+          | 2 => gateIs l (some .s) false
+          | 3 => gateIs l none false
+          | _ => false)
+       else gateIs l none false && (kind == 0 || kind == 1))
   | .execLoop => !l.emb && l.cmd == .exec && gateIs l (some .x) true && commit && (!l.inLook || l.neg) && kind != 2
       && (l.inLook || kind == 0 || kind == 1 || kind == 4) && (kind != 4 || !l.inLook)
   | .direct => !l.emb && !commit && l.cmd != .exec && (l.inLook == isBpop l.cmd) &&
